@@ -564,6 +564,11 @@ def subscript_load(eng, st, base, sl, node):
         if not z3.is_int_value(i):
             raise Unsupported("tuple index must be constant")
         n = i.as_long()
+        if n >= len(base.py) or n < -len(base.py):
+            # e.g. data.shape[1] of a 1-D array: IndexError (used by the joint front end's type translation)
+            st.pending_raises.append((z3.BoolVal(True), 'IndexError', len(st.pc)))
+            st.assume(z3.BoolVal(False))
+            return vint(0)
         return base.py[n]
     if head == 'list':
         n = eng.list_len(st, base)
